@@ -97,8 +97,8 @@ helper:
   ret
 section data
 tab:
-  dq start
-  dq tab
+  dq =start
+  dq =tab
   dd 7
 """),
 ]
@@ -233,7 +233,6 @@ def corpus(ctx):
             out.append(("asm-" + sname, "x86_64", "rel", obj))
         except Exception:
             skipped["compile-failed"] += 1
-    logging.disable(logging.NOTSET)
     return out, skipped
 
 
@@ -284,16 +283,28 @@ def _blocks(text, head):
     return res
 
 
-def reference(path, bits):
-    """llvm-readobj's view of the file in the shape of Elf_Eval!RefOf, or None when the tool fails"""
+def reference_all(paths):
+    """one llvm-readobj run over all files -> {path: text of its print-out}"""
+    if not paths:
+        return {}
+    script = ('for f in "$@"; do llvm-readobj-14 --file-headers --sections --symbols --relocations --expand-relocs '
+              '--program-headers "$f" 2>/dev/null; done')
     try:
-        p = subprocess.run(["llvm-readobj-14", "--file-headers", "--sections", "--symbols", "--relocations",
-                            "--expand-relocs", "--program-headers", path], capture_output=True, text=True, timeout=20)
+        p = subprocess.run(["sh", "-c", script, "sh"] + paths, capture_output=True, text=True, timeout=300)
     except Exception:
+        return {}
+    res = {}
+    for part in re.split(r"(?m)^(?=File: )", p.stdout):
+        m = re.match(r"File: (.*)\n", part)
+        if m and "ElfHeader {" in part:
+            res[m.group(1).strip()] = part
+    return res
+
+
+def reference(t, bits):
+    """llvm-readobj's view of a file in the shape of Elf_Eval!RefOf, or None when the tool gave none"""
+    if not t:
         return None
-    if p.returncode != 0 or "ElfHeader {" not in p.stdout:
-        return None
-    t = p.stdout
     try:
         h = _blocks(t, "ElfHeader")[0]
         hdr = {"type": _num(h["Type"]), "machine": _num(h["Machine"]), "entry": _w8(_num(h["Entry"])),
@@ -330,21 +341,26 @@ def reference(path, bits):
     return {"present": True, "hdr": hdr, "secs": secs, "syms": syms, "relas": relas, "segs": segs}
 
 
-def readelf_diag(path):
-    """diagnostics of GNU readelf and llvm-readelf: list of short strings (empty = accepted silently)"""
-    diag = []
-    for tool in (["readelf", "-a", "-W"], ["llvm-readelf-14", "-a"]):
-        try:
-            p = subprocess.run(tool + [path], capture_output=True, text=True, timeout=20)
-        except Exception:
-            continue
-        for ln in p.stderr.splitlines():
-            ln = ln.strip()
-            if ln:
-                diag.append("%s: %s" % (tool[0], re.sub(r"^\S*readelf\S*:\s*", "", ln)[:100]))
-        if p.returncode != 0 and not p.stderr.strip():
-            diag.append("%s: exit status %d" % (tool[0], p.returncode))
-    return diag
+def readelf_diag_all(paths):
+    """diagnostics of GNU readelf and llvm-readelf per file (one shell loop): {path: [short strings]},
+    an empty list = accepted silently"""
+    res = {p: [] for p in paths}
+    if not paths:
+        return res
+    script = ('for f in "$@"; do echo "##FILE $f" >&2; readelf -a -W "$f" >/dev/null || echo "readelf: exit status $?" >&2; '
+              'llvm-readelf-14 -a "$f" >/dev/null || echo "llvm-readelf: exit status $?" >&2; done')
+    try:
+        p = subprocess.run(["sh", "-c", script, "sh"] + paths, capture_output=True, text=True, timeout=300)
+    except Exception:
+        return res
+    cur = None
+    for ln in p.stderr.splitlines():
+        ln = ln.strip()
+        if ln.startswith("##FILE "):
+            cur = ln[7:]
+        elif ln and cur in res:
+            res[cur].append(ln[:120])
+    return res
 
 
 def _setof(v):
@@ -374,8 +390,15 @@ class Engine:
         ctx.assume("relocatable files of machines other than x86_64 with relocation entries are refused by ppci "
                    "(NotImplementedError 'ELF format relocations'): outside the property, skipped and counted")
         if ctx.only is None:
-            cfg = MC_CFG % ((2, 2, 1, 2, 5, 4) if thorough else (1, 1, 1, 1, 11, 8))
+            cfg = MC_CFG % ((2, 2, 1, 1, 97, 4) if thorough else (1, 1, 1, 1, 23, 8))
             res = ctx.tlc("Elf_MC", cfg, label="reader laws", workers=8, coverage=False)
+            acts = {}
+            for m in re.finditer(r'<<"ACT", "(\w+)">>', res.raw):
+                acts[m.group(1)] = acts.get(m.group(1), 0) + 1
+            for a in ("AddSection", "AddSymbol", "AddRela", "AddSegment", "SetEntry"):
+                if not acts.get(a):
+                    raise core.tlcmod.MachineryError("Elf_MC: action %s never taken" % a)
+                ctx.cov["actions"]["Elf_MC." + a] = acts[a]
             for e in res.errors:
                 raise core.tlcmod.MachineryError("Elf.tla law fails in the specification itself: %s\n%s" % (e, e.text[:1500]))
         items, skipped = corpus(ctx)
@@ -385,6 +408,7 @@ class Engine:
         toolarge = 0
         nonascii = 0
         nref = 0
+        tooled = []
         refdir = os.path.join(ctx.workdir, "files")
         os.makedirs(refdir, exist_ok=True)
         for stem, arch, kind, obj in items:
@@ -412,20 +436,24 @@ class Engine:
                 path = os.path.join(refdir, "f%d.elf" % len(recs))
                 with open(path, "wb") as f:
                     f.write(bytes(out["file"]))
-                ref = reference(path, BITS.get(arch, 32))
-                if ref is not None:
-                    rec["ref"] = ref
-                    nref += 1
-                diag = readelf_diag(path)
-                aux["files"] += 1
-                if diag:
-                    aux["diagnosed"] += 1
-                    if len(aux["examples"]) < 6:
-                        aux["examples"].append({"key": key, "diag": diag[:3]})
-                else:
-                    aux["accepted_silently"] += 1
-                os.unlink(path)
+                tooled.append((path, rec))
             recs.append(rec)
+        texts = reference_all([p for p, _ in tooled])
+        diags = readelf_diag_all([p for p, _ in tooled])
+        for path, rec in tooled:
+            ref = reference(texts.get(path), BITS.get(rec["arch"], 32))
+            if ref is not None:
+                rec["ref"] = ref
+                nref += 1
+            diag = diags.get(path, [])
+            aux["files"] += 1
+            if diag:
+                aux["diagnosed"] += 1
+                if len(aux["examples"]) < 6:
+                    aux["examples"].append({"key": rec["key"], "diag": diag[:3]})
+            else:
+                aux["accepted_silently"] += 1
+            os.unlink(path)
         if ctx.only is not None:
             recs = [r for r in recs if ctx.only["key"].startswith(r["key"] + ":") or r["key"] == ctx.only["key"]]
         for r in recs:
@@ -457,16 +485,13 @@ class Engine:
             if not isinstance(idx, int) or not 1 <= idx <= len(recs):
                 raise core.tlcmod.MachineryError("TLC error without record index: %s\n%s" % (e, e.text[:2000]))
             r = recs[idx - 1]
-            if e.name == "RefAgrees":
-                for c in sorted(_setof(st.get("sus"))):
-                    if (idx, c) not in seen:
-                        seen.add((idx, c))
-                        ctx.note("SPEC-SUSPECT C17 %s: Elf.tla and llvm-readobj disagree on %s" % (r["key"], c))
-                continue
+            for c in sorted(_setof(st.get("sus"))):
+                if (idx, c) not in seen:
+                    seen.add((idx, c))
+                    ctx.note("SPEC-SUSPECT C17 %s: Elf.tla and llvm-readobj disagree on %s" % (r["key"], c))
+            # TLC reports one violated invariant per state; `bad` names every failing clause of the record
             bad = _setof(st.get("bad"))
-            names = GROUPS.get(e.name)
-            if names is None:                     # WellFormedELF: every failing well-formedness clause
-                names = sorted(c for c in bad if c not in WHAT)
+            names = sorted(bad)
             for c in names:
                 if c not in bad or (idx, c) in seen:
                     continue
